@@ -225,4 +225,45 @@ def finished (s : State) (t : Tid) : Bool :=
   | some it => it.pc == .done
   | none => true
 
+/-! ### the program BEFORE fix a459cd4 (for contrast; Properties/C11.lean)
+
+        if i == len(cache):
+            acquire()
+            if self._cache_complete:
+                break                      # <- leaves the loop with the lock held
+            try:
+                for j in range(10):
+                    cache.append(advance_iterator(gen))
+            except StopIteration:
+                self._cache_gen = gen = None
+                self._cache_complete = True
+                break                      # <- leaves the loop with the lock held
+            release()
+
+    i.e. the two `break`s (lines 135 and 142 of the numbering above) go straight to the tail loop
+    (line 147) without passing through `release()`. -/
+
+def stepIterOld (sh : Shared) (t : Tid) (it : Iter) : Option (Shared × Iter) :=
+  match it.pc with
+  | .l135 => some (sh, { it with pc := .l147 })
+  | .l142 => some (sh, { it with pc := .l147 })
+  | _ => stepIter sh t it
+
+def stepOld (s : State) (t : Tid) : Option State :=
+  match s.its[t]? with
+  | none => none
+  | some it =>
+    match stepIterOld s.sh t it with
+    | none => none
+    | some (sh', it') => some { sh := sh', its := s.its.set t it' }
+
+def runOld (s : State) : List Tid → State
+  | [] => s
+  | t :: ts => runOld ((stepOld s t).getD s) ts
+
+/-- some thread is unfinished and no thread can move (w.r.t. a given step function) -/
+def deadlocked (stepf : State → Tid → Option State) (s : State) : Bool :=
+  (List.range s.its.length).any (fun t => !finished s t) &&
+  (List.range s.its.length).all (fun t => (stepf s t).isNone)
+
 end Cache
